@@ -92,7 +92,7 @@ func H_C18_tcp_stop() {
 	n := vParam("conns")
 	table := c18table(true)
 	l := &c18listener{accept: make(chan net.Conn, 4), closed: make(chan struct{})}
-	s := &TCPServer{nbtns: table, listener: l, handlers: NewPacketHandler(table), quit: make(chan struct{})}
+	s := c18newTCP(table, l)
 	s.wg.Add(1)
 	go s.serve()
 	var conns []*c18blockConn
@@ -136,12 +136,12 @@ func H_C18_udp_stop() {
 	variant := vParam("server")
 	var stop func()
 	if variant == 0 {
-		s := &UDPServer{nbtns: table, conn: srv, handlers: NewPacketHandler(table), quit: make(chan struct{})}
+		s := c18newUDP(table, srv)
 		s.wg.Add(1)
 		go s.serve()
 		stop = s.Stop
 	} else {
-		s := &Server{nbtns: table, listener: srv, quit: make(chan struct{})}
+		s := c18newServer(table, srv)
 		s.wg.Add(1)
 		go s.serve()
 		stop = s.Stop
